@@ -57,8 +57,6 @@ Proof.
   apply existsb_ext'. intros [g t]. cbn [fst snd]. now rewrite qtrue_qbool, q_gt_z.
 Qed.
 
-Lemma exec_list_nil : forall ext st, exec_list ext [] st = Ok CNormal st.
-Proof. reflexivity. Qed.
 
 (* ---- the head: everything before the loop ------------------------------------------------------------------ *)
 Section Run.
